@@ -128,6 +128,9 @@ def _chunk(rng, feat, novel, pairs):
         q = n - 2
         return body + rng.choice(("[Ring2]", "[=Ring2]")) + IDX[q // 16] + IDX[q % 16]
     if feat == "compat":           # pre-2.0 symbols: decoded with compatible=True (see gen_spec)
+        if rng.random() < 0.6:     # the ones that go through the symbol update table
+            return rng.choice(("[Branch1_1]", "[Branch1_2]", "[Branch1_3]", "[Branch2_2]", "[Branch3_3]", "[Expl=Ring1]",
+                               "[Expl#Ring1]", "[Expl=Ring2]", "[Expl/Ring1]", "[Expl\\Ring2]", "[Expl=Ring3]")) + rng.choice(IDX[:4])
         return rng.choice(gen.COMPAT)
     if feat == "nested":
         return "[Branch1][Branch1][C][Branch1][C][F][C]" if rng.random() < 0.5 else "[Branch2][Ring1][C][C][Branch1][Ring1][=O][C][N]"
